@@ -222,19 +222,34 @@ def c15_reap(ctx):
         out.append(ok('ORD-C15-reap', 'schedule_dormant|reap-first', 'remove_finished_threads dominates the threads lock', fn=sd.name))
     else:
         out.append(bad('ORD-C15-reap', 'schedule_dormant|reap-first', 'dead threads are not reaped before the thread table is searched', fn=sd.name))
-    # in remove_finished_threads: Vec::remove under the lock guarded by is_finished; join outside the lock
-    H = ctx.held(rf)
-    removes = [bb for bb, t in rf.calls() if (t['func'].get('fn') or '').endswith('::Vec::remove')]
-    joins = [bb for bb, t in rf.calls() if (t['func'].get('fn') or '').endswith('JoinHandle::join')]
-    fin = [bb for bb, t in rf.calls() if (t['func'].get('fn') or '').endswith('::is_finished')]
-    if not removes or not joins or not fin:
-        out.append(bad('ORD-C15-reap', 'remove_finished_threads|shape', 'remove_finished_threads no longer tests is_finished / removes / joins (found %d/%d/%d)' % (len(fin), len(removes), len(joins)), fn=rf.name))
+    # in remove_finished_threads: finished handles are taken out of the table under the threads lock; they are joined outside the lock
+    from .rules_locks import bounded_join
+    REMOVAL = ('::Vec::remove', '::Vec::swap_remove', '::Vec::drain', '::Vec::retain', '::Vec::retain_mut', '::Vec::extract_if', '::Vec::pop', '::Vec::split_off')
+    from .rules_locks import cg
+    reach = cg(ctx).reachable(rf.name)
+    body = [rf] + [c for c in F.crate_fns() if c is not rf and (c.name in reach or (c.is_closure and c.root == rf.name))]
+    removes = [(f, bb) for f in body for bb, t in f.calls() if (t['func'].get('fn') or '').endswith(REMOVAL)]
+    joins = [(f, bb) for f in body for bb, t in f.calls() if (t['func'].get('fn') or '').endswith('JoinHandle::join')]
+    fin = [(f, bb) for f in body for bb, t in f.calls() if (t['func'].get('fn') or '').endswith('::is_finished')]
+    key = 'remove_finished_threads|shape'
+    if not joins or not fin:
+        out.append(bad('ORD-C15-reap', key, 'remove_finished_threads no longer tests is_finished / joins (found %d/%d)' % (len(fin), len(joins)), fn=rf.name))
+    elif not removes:
+        out.append(undecided('ORD-C15-reap', key, 'finished threads are tested and joined, but how they leave the thread table is not a recognised Vec operation'))
+    elif any(f is not rf for f, bb in removes + joins):
+        out.append(undecided('ORD-C15-reap', key, 'removal or join happens inside a closure: lock context not decided'))
     else:
-        okk = all('SchedulerCore.threads' in H.held_at_term(b) for b in removes) and all('SchedulerCore.threads' not in H.held_at_term(b) for b in joins)
-        from .rules_locks import bounded_join
-        bj = all(bounded_join(ctx, rf, b) for b in joins)
+        H = ctx.held(rf)
+        okk = all('SchedulerCore.threads' in H.held_at_term(b) for f, b in removes) and all('SchedulerCore.threads' not in H.held_at_term(b) for f, b in joins)
+        bj = all(bounded_join(ctx, rf, b) for f, b in joins)
         if okk and bj:
-            out.append(ok('ORD-C15-reap', 'remove_finished_threads|shape', 'removes exactly the finished handles under the threads lock and joins them outside it', fn=rf.name))
+            out.append(ok('ORD-C15-reap', key, 'removes exactly the finished handles under the threads lock and joins them outside it', fn=rf.name))
+        elif okk:
+            # a join whose handle is not visibly guarded by is_finished: with removal driven by an iterator predicate the guard is in a closure
+            if any(f is not rf for f, bb in fin):
+                out.append(undecided('ORD-C15-reap', key, 'the is_finished test sits in a closure: that only finished handles are joined is not decided'))
+            else:
+                out.append(bad('ORD-C15-reap', key, 'a handle that is not finished can be joined', fn=rf.name))
         else:
-            out.append(bad('ORD-C15-reap', 'remove_finished_threads|shape', 'removal not under the threads lock, join under it, or a handle that is not finished can be joined', fn=rf.name))
+            out.append(bad('ORD-C15-reap', key, 'removal not under the threads lock, or join under it', fn=rf.name))
     return out
